@@ -116,7 +116,7 @@ func runScenario(sc scenario) (string, string) {
 	go func() { wg.Wait(); close(done) }()
 	select {
 	case <-done:
-	case <-time.After(20 * time.Second):
+	case <-time.After(120 * time.Second):
 		buf := make([]byte, 1<<20)
 		n := runtime.Stack(buf, true)
 		os.WriteFile("/tmp/c07_hang.txt", buf[:n], 0o644)
